@@ -19,6 +19,7 @@ pub struct RestartOnly;
 impl<A: Actor> RestartStrategy<A> for RestartOnly {
     async fn refresh(mut actor: A, ctx: &mut Context<A>) -> DynResult<A> {
         actor.stopped(ctx).await;
+        ctx.abort_tasks();
         actor.started(ctx).await?;
         Ok(actor)
     }
@@ -30,6 +31,7 @@ impl<A: Actor + Default> RestartStrategy<A> for RecreateFromDefault {
     async fn refresh(mut actor: A, ctx: &mut Context<A>) -> DynResult<A> {
         eprintln!("recreating refresh");
         actor.stopped(ctx).await;
+        ctx.abort_tasks();
         actor = A::default();
         actor.started(ctx).await?;
         Ok(actor)
